@@ -25,6 +25,7 @@ is emitted for it, so every proof about it stops compiling):
 """
 import ast
 import os
+import warnings
 
 from .pep2coq import Tr, Untranslatable, strip_doc, REPO
 
@@ -380,7 +381,9 @@ class StepTr(object):
 
 def translate_step(path, name):
     """-> (list of (coq definition name, option literal | None | '#invalid', [instr strings]), StepTr)"""
-    tree = ast.parse(open(path).read(), path)
+    with warnings.catch_warnings():
+        warnings.simplefilter("ignore")       # invalid escape sequences in the docstrings
+        tree = ast.parse(open(path).read(), path)
     body = strip_doc(tree.body)
     fns = []
     for n in body:
